@@ -40,16 +40,23 @@ def reset_line(kind, masters=MASTERS, pre=None):
             "pre": [{"vol": v, "keys": sorted(ks)} for v, ks in sorted(pre.items())]}
 
 
-def model_pre():
+def pre_lit(pairs):
+    return vf.Raw("{" + ", ".join('<<"%s", %d>>' % p for p in pairs) + "}")
+
+
+MODEL_PRE_IN = [("v2", 2)]              # only a key inside the first window (SetMax must not ignore it)
+
+
+def model_pre(pairs=None):
     pre = {}
-    for v, k in MODEL_PRE:
+    for v, k in (pairs if pairs is not None else MODEL_PRE):
         pre.setdefault(v, []).append(scale(k))
     return pre
 
 
-def hist_to_exec(kind, hist, masters=MASTERS):
+def hist_to_exec(kind, hist, masters=MASTERS, pre=None):
     """a layer-B history (inputs only) -> one script execution"""
-    out = [reset_line(kind, masters, model_pre())]
+    out = [reset_line(kind, masters, model_pre(pre))]
     for op in hist:
         op = dict(op)
         if kind == "snowflake" and op["ev"] == "leader" and op.get("fresh"):
@@ -168,11 +175,35 @@ def write_script(path, execs):
                 f.write(json.dumps(op) + "\n")
 
 
+def judge_all(ctx, traces):
+    def mutate(evs):
+        if evs[0].get("kind") != "etcd" or any(e["ev"] in ("leader", "call") for e in evs):
+            return None
+        seen = {}
+        for i, e in enumerate(evs):
+            if e["ev"] == "next":
+                if e["vol"] in seen:
+                    m = [dict(x) for x in evs]
+                    m[i]["start"] = seen[e["vol"]]
+                    return m
+                seen[e["vol"]] = e["start"]
+        return None
+
+    consts = {"Masters": set(MASTERS), "Vols": set(VOLS), "MaxKey": 0, "MaxOps": 0, "RealSteps": REAL_STEPS}
+    for i, t in enumerate(traces):
+        ctx.judge("KeyAllocTrace", t, "trace_base.cfg", consts,
+                  nontrivial=lambda e: sum(1 for x in e if '"ev":"next"' in x or '"ev":"nextvid"' in x or
+                                           ('"ev":"ret"' in x)) >= 2,
+                  mutate=mutate if i == 0 else None, label="-%d" % i)
+
+
 def run(ctx):
     ctx.sany("KeyAlloc", "KeyAllocTrace", "SequencerImpl")
     th = ctx.thorough
-    kf_all = {KF_MEM, KF_SNOW}
-    D = 7 if th else 6
+    if ctx.replay:
+        ctx.rule = "replay of the script " + ctx.replay
+        return judge_all(ctx, [ctx.drive(ctx.build("c13"), ["--script", ctx.replay])])
+    D = 7 if th else 5
 
     # ---- 1. model checking: layer A alone; layer B refines it (with the open findings admitted);
     #         without them the model reproduces the suspects (expected violations)
@@ -181,8 +212,9 @@ def run(ctx):
     def mc(name, spec, cfg, consts, **kw):
         jobs.append(("mc", ctx.instance(name, spec, cfg, consts), kw))
 
-    def gen(name, consts, kind, masters=MASTERS):
-        jobs.append(("gen", ctx.instance(name, "SequencerImpl", "SequencerImpl_gen.cfg", consts), dict(kind=kind, masters=masters)))
+    def gen(name, consts, kind, masters=MASTERS, pre=None):
+        jobs.append(("gen", ctx.instance(name, "SequencerImpl", "SequencerImpl_gen.cfg", consts),
+                     dict(kind=kind, masters=masters, pre=pre)))
 
     mc("MC_KeyAlloc", "KeyAlloc", "KeyAlloc_mc.cfg",
        dict(Masters=set(MASTERS), Vols=set(VOLS), MaxKey=3, MaxOps=4 if th else 3), label="layer A")
@@ -191,23 +223,31 @@ def run(ctx):
     mc("MC_B_mem2_kf", "SequencerImpl", "SequencerImpl_mc.cfg", bconf(KFm={KF_MEM}, MaxOps=D),
        label="memory sequencer, two masters, finding admitted")
     mc("MC_B_etcd", "SequencerImpl", "SequencerImpl_mc.cfg",
-       bconf(Kind="etcd", Split=True, MaxOps=D, Counts=counts((1, 0), (2, 0), (0, 1))),
+       bconf(Kind="etcd", Split=True, MaxOps=D, Counts=counts((1, 0), (2, 0), (0, 1)) if th else counts((1, 0), (2, 0))),
        label="etcd sequencer as repaired (SetMax moves past the seen value, CAS retried), Get/CAS interleaved")
-    mc("MC_B_snow1", "SequencerImpl", "SequencerImpl_mc.cfg", bconf(Kind="snowflake", Counts=counts((1, 0)), MaxOps=D),
-       label="snowflake, count 1 only")
     mc("MC_B_snow_kf", "SequencerImpl", "SequencerImpl_mc.cfg", bconf(Kind="snowflake", KFm={KF_SNOW}, MaxOps=D),
        label="snowflake, counts 1 and 2, finding admitted")
     mc("MC_B_vids", "SequencerImpl", "SequencerImpl_mc.cfg",
        bconf(WithVids=True, Vols={"v1"}, Counts=counts((1, 0)), KFm={KF_MEM}, MaxOps=D), label="volume ids through raft")
+    if th:
+        mc("MC_B_etcd_in", "SequencerImpl", "SequencerImpl_mc.cfg",
+           bconf(Kind="etcd", Split=True, MaxOps=D, Pre=pre_lit(MODEL_PRE_IN)),
+           label="etcd sequencer as repaired, the only pre-existing key lies inside the first window")
+        mc("MC_B_snow1", "SequencerImpl", "SequencerImpl_mc.cfg", bconf(Kind="snowflake", Counts=counts((1, 0)), MaxOps=D),
+           label="snowflake, count 1 only")
     # ---- 2. generators: witnesses to depth GDepth + every schedule on which the MODEL breaks the
     #         property (suspect-shaped configurations, no finding admitted): all are replayed on the real code
-    g = 4 if th else 3
+    g = 4 if th else 2
     gen("G_mem", bconf(GDepth=g, MaxOps=D), "memory")
-    gen("G_mem1", bconf(Masters={"m1"}, GDepth=g + 1, MaxOps=D), "memory", ["m1"])
-    gen("G_etcd_old", bconf(Kind="etcd", SetMaxShape="old", GDepth=g, MaxOps=D, Counts=counts((1, 0), (2, 0), (0, 1))), "etcd")
-    gen("G_etcd_split", bconf(Kind="etcd", CasRetry=False, Split=True, GDepth=g, MaxOps=D + 1), "etcd")
+    gen("G_etcd_old", bconf(Kind="etcd", SetMaxShape="old", GDepth=g, MaxOps=D if th else 4,
+                            Counts=counts((1, 0), (2, 0), (0, 1))), "etcd")
+    gen("G_etcd_old_in", bconf(Kind="etcd", SetMaxShape="old", GDepth=0, MaxOps=D if th else 4, Pre=pre_lit(MODEL_PRE_IN),
+                               Fresh={False}), "etcd", pre=MODEL_PRE_IN)
     gen("G_snow", bconf(Kind="snowflake", GDepth=g, MaxOps=D - 1, Counts=counts((1, 0), (3, 0))), "snowflake")
     gen("G_vids", bconf(WithVids=True, Vols={"v1"}, Counts=counts((1, 0)), GDepth=g + 1, MaxOps=g + 1), "memory")
+    if th:
+        gen("G_mem1", bconf(Masters={"m1"}, GDepth=g + 1, MaxOps=D), "memory", ["m1"])
+        gen("G_etcd_split", bconf(Kind="etcd", CasRetry=False, Split=True, GDepth=g, MaxOps=7), "etcd")
 
     def do(job):
         what, inst, kw = job
@@ -224,9 +264,13 @@ def run(ctx):
             continue
         name = os.path.basename(job[1][0])[:-4]
         for h in res:
-            execs.append(hist_to_exec(job[2]["kind"], h, job[2]["masters"]))
+            execs.append(hist_to_exec(job[2]["kind"], h, job[2]["masters"], job[2]["pre"]))
         model_cex[name] = len(res)
     ctx.notes["model_generated_schedules"] = model_cex
+    # regression: the minimal failing execution of every finding of this property, open or fixed
+    for f in vf.load_known_findings():
+        if f["property"] == "C13":
+            execs.append([dict(e) for e in f["minimal"]])
     # the model must still reproduce the suspects without the findings (documents what the generators are for)
     for name, consts, inv in [
             ("X_mem2", bconf(MaxOps=D), "NoReuse"),
@@ -249,38 +293,17 @@ def run(ctx):
         execs.append(random_vids(rng, rng.randint(4, 14)))
 
     binp = ctx.build("c13")
-    if ctx.replay:
-        traces = [ctx.drive(binp, ["--script", ctx.replay])]
-    else:
-        s1 = os.path.join(ctx.out, "script-seq.ndjson")
-        write_script(s1, execs)
-        s2 = os.path.join(ctx.out, "script-storm.ndjson")
-        write_script(s2, storms)
-        traces = [ctx.drive(binp, ["--script", s1], name="trace-seq"),
-                  ctx.drive(binp, ["--script", s2], name="trace-storm")]
-        if th:
-            racebin = ctx.build("c13", race=True)
-            traces.append(ctx.drive(racebin, ["--script", s2, "--mode", "race"], name="trace-race", timeout=1500))
+    s1 = os.path.join(ctx.out, "script-seq.ndjson")
+    write_script(s1, execs)
+    s2 = os.path.join(ctx.out, "script-storm.ndjson")
+    write_script(s2, storms)
+    traces = [ctx.drive(binp, ["--script", s1], name="trace-seq"),
+              ctx.drive(binp, ["--script", s2], name="trace-storm")]
+    if th:
+        racebin = ctx.build("c13", race=True)
+        traces.append(ctx.drive(racebin, ["--script", s2, "--mode", "race"], name="trace-race", timeout=1500))
 
-    def mutate(evs):
-        if evs[0].get("kind") != "etcd" or any(e["ev"] in ("leader", "call") for e in evs):
-            return None
-        seen = {}
-        for i, e in enumerate(evs):
-            if e["ev"] == "next":
-                if e["vol"] in seen:
-                    m = [dict(x) for x in evs]
-                    m[i]["start"] = seen[e["vol"]]
-                    return m
-                seen[e["vol"]] = e["start"]
-        return None
-
-    consts = {"Masters": set(MASTERS), "Vols": set(VOLS), "MaxKey": 0, "MaxOps": 0, "RealSteps": REAL_STEPS}
-    for i, t in enumerate(traces):
-        ctx.judge("KeyAllocTrace", t, "trace_base.cfg", consts,
-                  nontrivial=lambda e: sum(1 for x in e if '"ev":"next"' in x or '"ev":"nextvid"' in x or
-                                           ('"ev":"ret"' in x)) >= 2,
-                  mutate=mutate if i == 0 else None, label="-%d" % i)
+    judge_all(ctx, traces)
     ctx.rule = ("executions = (a) TLC-generated schedules of the layer-B model SequencerImpl (one witness per "
                 "(state, last operation) to depth %d for memory / etcd / snowflake / volume ids, plus EVERY bounded "
                 "schedule on which the model itself re-issues a key: old etcd SetMax shape, etcd SetMax without "
